@@ -218,6 +218,34 @@ func init() {
 	specsFor["C09"] = c09Specs
 	checks["C09"] = func(c *Ctx) *Result {
 		r := runSpecs(c, c09Specs(c.Tier))
+		if r.Found == nil {
+			maxL := 24
+			if c.Tier == "thorough" {
+				maxL = 112
+			}
+			total := 0
+			for _, cfg := range []Cfg{defaultCfg, {Fast: false, Cache: 1000}, {Fast: true, Cache: 1000, IVSet: true, IV: 1}} {
+				if len(r.Raw) > 0 {
+					break
+				}
+				if c.Tier == "thorough" && cfg.Cache != 0 {
+					maxL = 40
+				}
+				n, fail := longChainRollbacks(maxL, cfg)
+				total += n
+				if fail != "" {
+					if id := c.KF.MatchRaw(c.ID, fail); id != "" {
+						c.KF.NoteRaw(id, fail)
+						continue
+					}
+					rawViolation(c, r, fail, map[string]any{"cfg": cfg})
+				}
+			}
+			r.States += total
+			r.Transitions += total
+			r.Extra = map[string]any{"long_chain_supplement": map[string]any{"max_latest_version": maxL, "rollback_pairs": total,
+				"note": "fixed scenario family (not exhaustive over operations): for every (latest L, target v) a chain of L versions, rollback to v, all read paths / hashes / bookkeeping / index vs model, one more commit, reopen"}}
+		}
 		r.Assumptions = []string{
 			"twin = fresh instance replaying the surviving history (computed syntactically: uncommitted writes before Rollback and everything after the commit of the rollback target are dropped; prunings below the target and the last reopen are kept)",
 			"twin comparison: byte-identical tree-node records and equal persisted-index keys/values/label; index version stamps are not compared",
